@@ -1,1 +1,31 @@
-From Verif Require Import Base.Harness Model.Ledger.
+(* C19 — Privileged changes need governance; messages touch only the signer's assets. *)
+From Coq Require Import ZArith List String.
+From Verif Require Import Base.Harness Model.Authority Model.Ledger Proofs.AuthorityProofs.
+Import ListNotations.
+Open Scope Z_scope.
+
+Theorem C19_privileged_need_authority {S P} authority (apply : S -> P -> option S) st req payload :
+  req <> authority -> gated authority apply st req payload = None.
+Proof. exact (gated_needs_authority authority apply st req payload). Qed.
+Print Assumptions C19_privileged_need_authority.
+
+Theorem C19_team_by_team_only team current new : current <> team -> update_team team current new = None.
+Proof. exact (team_by_team_only team current new). Qed.
+Print Assumptions C19_team_by_team_only.
+
+Theorem C19_no_reregistration specs q1 q2 spec spec' specs' :
+  lower_str q1 = lower_str q2 ->
+  register_spec specs q1 spec = Some specs' -> register_spec specs' q2 spec' = None.
+Proof. exact (no_reregistration_any_case specs q1 q2 spec spec' specs'). Qed.
+Print Assumptions C19_no_reregistration.
+
+(* PARTIAL (see level note): the frame condition "only the signer's assets go down, with the three
+   exceptions" is stated here as the meaning of the executable check that is evaluated on the
+   real message handlers; it is not derived from a model of all handlers *)
+Theorem C19_frame_check_sound_partial before op signer params after decs :
+  c19_step before (Step op signer 0 params after decs) = [] -> 0 <= signer ->
+  ~ In op privileged_ops ->
+  forall acct comp role, In (acct, comp, role) decs ->
+    role = "signer"%string \/ exception_ok op role comp = true.
+Proof. exact (c19_step_sound before op signer params after decs). Qed.
+Print Assumptions C19_frame_check_sound_partial.
